@@ -154,6 +154,7 @@ func NewLookupPartitionStrategyWithMetricRegistry(
 	}
 
 	unknownPartition := NewLookupPartitionWithMetricRegistry("<unknown>", 0.0, limit, registry)
+	unknownPartition.UpdateLimit(limit)
 	strategy := &LookupPartitionStrategy{
 		partitions:       partitions,
 		unknownPartition: unknownPartition,
@@ -233,6 +234,7 @@ func (s *LookupPartitionStrategy) SetLimit(limit int) {
 		for _, v := range s.partitions {
 			v.UpdateLimit(int32(limit))
 		}
+		s.unknownPartition.UpdateLimit(int32(limit))
 	}
 }
 
